@@ -11,6 +11,7 @@ every key_transform_with_dump for canonical snake_case names and under NONE for 
 import json, copy
 from props.core_gen import Gen, systematic_types, type_stats, type_depth, LEAVES
 from props.c05 import canon_show, coq_eval_groups
+from props.c03 import has_nested_data, has_auto_tag
 
 META = {
     'id': 'C01',
@@ -32,10 +33,13 @@ META = {
     'level_note': ('Trusted: Coq kernel + vm_compute; the two hand-written models; leaf laws of stdlib/pytimeparse (audited on every run on the '
                    'generated leaves); PyYAML/tomllib/tomli_w/json decide which payloads a format can carry. bytes/bytearray are outside C01 '
                    '(base64 text does not load back in the default engine: F4, by design of the property).'),
-    'rule': ('class models: every leaf type (17, no bytes) x every container position (16 contexts incl. tagged unions) to depth 2 (quick) / 3 (thorough), '
-             'packed into classes of <= 5 fields, + random class models (quick 80, thorough 2000) + classes with non-snake identifiers under NONE; '
-             'x key transform in {default, CAMEL, PASCAL, LISP, SNAKE, NONE} x root kind in {plain, JSONWizard, JSONWizard+JSONFileWizard, YAMLWizard, '
-             'TOMLWizard}. Non-trivial: at least one container/union/class layer or non-JSON leaf. Distinct: distinct (type label | value digest | transform).'),
+    'rule': ('class models: every leaf type (17, no bytes) x every container position (19 contexts incl. TypedDict optional keys holding None, explicit and auto-assigned tagged unions) '
+             'to depth 2 (quick) / 3 (thorough), packed into classes of <= 5 fields, the same positions as one-field YAMLWizard / TOMLWizard classes, + random class models '
+             '(quick 80, thorough 2000) + classes with non-snake identifiers under NONE; x key transform {default, CAMEL, PASCAL, LISP, SNAKE, NONE} x root kind {plain, JSONWizard, '
+             '+JSONFileWizard, YAMLWizard, TOMLWizard}. Names: 30% from the wider snake grammar (one-letter words, digits at word ends): the round trip is demanded whenever the MODEL '
+             'says keys_ok (the theorem\'s hypothesis), and a class whose keys do not resolve in the model either is counted outside_domain. Values: tzinfo zoo, negative timedeltas, '
+             'huge ints. Histories: half of the models with nested dataclasses dump every nested instance on its own before the owner\'s first dump (default key spelling only: F10). '
+             'Non-trivial: at least one container/union/class layer or non-JSON leaf. Distinct: distinct (type label | value digest | transform).'),
     'trusted_base': ['models coq/model/CoreDump.v, CoreLoad.v; domain coq/model/CoreRT.v',
                      'harness/impl/core_rt.py (object <-> Gallina term / canonical text), harness/impl/c05.py oracle_table()'],
     'assumptions': ['leaf laws (hypothesis leaf_ok): UUID(u.hex)==u, Decimal(str(d))==d, Path(str(p))==p, fromisoformat(isoformat())==id for date/datetime/time '
@@ -90,10 +94,25 @@ def has_bytes(ty):
     return any(has_bytes(s) for s in subs)
 
 
+import re
+CANON = re.compile(r'^[a-z]{2,}[0-9]*(_[a-z]{2,}[0-9]*)*$')
+
+
+def all_canonical(ty):
+    """every dataclass field name of the model is a canonical snake_case name (words [a-z]{2,}[0-9]*)"""
+    ok = True
+    if ty['t'] == 'data':
+        ok = all(CANON.match(f['name']) for f in ty['fields'])
+    subs = [ty[k] for k in ('e', 'kt', 'vt') if k in ty] + list(ty.get('es', []))
+    subs += [f['ty'] if isinstance(f, dict) else f[1] for f in ty.get('fields', [])]
+    subs += [ft for _, ft in ty.get('req', []) + ty.get('opt', [])]
+    return ok and all(all_canonical(x) for x in subs)
+
+
 def make_cases(ctx):
     cases = []
     r = ctx.sub_rng('sys')
-    g = Gen(r, {'neg_timedelta': True, 'nonfinite': False, 'odd_offsets': True})   # sub-minute UTC offsets (repaired F43) stay in
+    g = Gen(r, {'neg_timedelta': True, 'nonfinite': False, 'odd_offsets': True, 'ext_names': 0.3, 'same_named_enums': 0.3})   # sub-minute UTC offsets (repaired F43) stay in
     items = systematic_types(g, 2 if ctx.tier == 'quick' else 3, leaves=C01_LEAVES)
     if ctx.tier != 'quick':
         d3 = [it for it in items if it[0].count('<') == 2]
@@ -119,7 +138,7 @@ def make_cases(ctx):
                           'labels': {root['fields'][0]['name']: lab}, 'src': 'single'})
     r2 = ctx.sub_rng('rand')
     for j in range(80 if ctx.tier == 'quick' else 2000):
-        g2 = Gen(r2, {'neg_timedelta': True, 'nonfinite': r2.random() < 0.2, 'odd_offsets': r2.random() < 0.3})
+        g2 = Gen(r2, {'neg_timedelta': True, 'nonfinite': r2.random() < 0.2, 'odd_offsets': r2.random() < 0.3, 'ext_names': 0.3, 'same_named_enums': 0.3})
         nf = r2.choice([1, 2, 3, 4])
         tys = []
         while len(tys) < nf:
@@ -133,13 +152,21 @@ def make_cases(ctx):
             names = r2.sample(pool, nf)
         root = g2.root(tys, names=names, bases=r2.choice(ROOTS))
         cases.append({'root': root, 'value': g2.value(root), 'cfg': {'xf': xf}, 'labels': {}, 'src': 'random'})
+    rh = ctx.sub_rng('history')
     for c in cases:
         c['json_keys_ok'] = key_text_ok(c['root'])
+        if has_auto_tag(c['root']):
+            c['cfg']['auto_tags'] = True
+        # history axis: members dumped alone before the owner's first dump (default key spelling only:
+        # a member dumped alone caches its own key spelling - open finding F10)
+        if has_nested_data(c['root']) and c['cfg'].get('xf') in (None, 'CAMEL') and rh.random() < 0.5:
+            c['pre_dump'] = True
+        c['canonical_names'] = all_canonical(c['root'])
     return cases
 
 
 def strip(c):
-    return {k: c[k] for k in ('root', 'value', 'cfg', 'json_keys_ok') if k in c}
+    return {k: c[k] for k in ('root', 'value', 'cfg', 'json_keys_ok', 'pre_dump') if k in c}
 
 
 def failures(res):
@@ -153,6 +180,8 @@ def failures(res):
             bad.append('%s round trip: load(dump(x)) != x (%s)' % (fmt, r.get('detail')))
     if not res.get('unchanged', True):
         bad.append('instance changed')
+    if 'pre_dump_err' in res:
+        bad.append('dumping a nested dataclass on its own raised %s' % res['pre_dump_err'])
     return bad
 
 
@@ -222,9 +251,14 @@ def run(ctx):
         f3 = in_f3(c['value'])
         if res.get('leaf_bad'):
             ctx.hist('leaf_law_false', ','.join(res['leaf_bad']))
+        kflag = model.get((i, 'keys'))
         if bad:
             if f3 and ctx.is_open_region(F3) and res.get('leaf_bad') == ['timedelta']:
                 ctx.hist('known_region', F3)
+            elif kflag == '0' and not c.get('canonical_names') and c['cfg'].get('xf') != 'NONE':
+                # non-canonical field names whose dumped spelling does not resolve back IN THE MODEL (keys_ok = false):
+                # outside the property's quantifier (canonical names, or NONE for any identifier)
+                ctx.hist('outside_domain', 'keys_ok=false, non-canonical names')
             else:
                 ctx.violation('C01 direct predicate fails: %s' % '; '.join(bad)[:400], {'kind': 'case', 'case': strip(c)})
         elif res.get('leaf_bad') and not f3:
@@ -254,8 +288,10 @@ def run(ctx):
                         ctx.broken_tie('model and implementation both lose the value but differently',
                                        {'case': strip(c), 'impl': impl_r.get('detail'), 'model': m[:800]})
         k = model.get((i, 'keys'))
-        if k is not None and k != '1':
-            ctx.broken_tie('keys_ok is false for a generated class (canonical names / NONE identifiers)', {'case': strip(c), 'model': k})
+        if k is not None:
+            ctx.hist('keys_ok', '%s/%s' % (k, 'canonical' if c.get('canonical_names') else 'extended'))
+            if k != '1' and (c.get('canonical_names') or c['cfg'].get('xf') == 'NONE'):
+                ctx.broken_tie('keys_ok is false for a generated class (canonical names / NONE identifiers)', {'case': strip(c), 'model': k})
         if len(ctx.samples) < 6 and i % 11 == 0:
             ctx.sample({'fields': [(f['name'], c['labels'].get(f['name'], f['ty']['t'])) for f in fields][:4], 'cfg': c['cfg'], 'bases': c['root'].get('bases'),
                         'formats_checked': sorted((res.get('res') or {}).keys()), 'model': (m or '')[:120]})
